@@ -316,47 +316,130 @@ def r1(ctx, chk):
 
 # ---------------------------------------------------------------------------
 def tz_model(ctx, rule):
-    """ordered [(name, pattern, flags(I), offset seconds)] and the search parts, as
-    build_tz_offsets produces them; the function's shape is conformance-checked"""
+    """ordered [(name, pattern, offset seconds)] and the search parts, as build_tz_offsets produces them.
+
+    The generator is read as a nest of three loops over the literal table with `append(<part>)` / `yield get_offset(..)`
+    statements (and an inner loop over the zone group's replace rules); every expression in it is evaluated by a small
+    evaluator that knows only: subscripts of the loop variables, `%` formatting, re.sub(a, b, x[, count]), tuples, locals bound
+    once, and the call of the nested get_offset (parameters bound by position/keyword, defaults from its signature).
+    Anything outside that language is an analysis error (exit 2), never a guess."""
     ix = ctx.ix
     f = ix.func("dateparser.timezone_parser:build_tz_offsets")
-    ref = '''
-def build_tz_offsets(search_regex_parts):
-    def get_offset(tz_obj, regex, repl="", replw=""):
-        return (
-            tz_obj[0],
-            {
-                "regex": re.compile(
-                    re.sub(repl, replw, regex % tz_obj[0]), re.IGNORECASE
-                ),
-                "offset": timedelta(seconds=tz_obj[1]),
-            },
-        )
-
-    for tz_info in timezone_info_list:
-        for regex in tz_info["regex_patterns"]:
-            for tz_obj in tz_info["timezones"]:
-                search_regex_parts.append(tz_obj[0])
-                yield get_offset(tz_obj, regex)
-
-                # alternate patterns
-                for replace, replacewith in tz_info.get("replace", []):
-                    search_regex_parts.append(re.sub(replace, replacewith, tz_obj[0]))
-                    yield get_offset(tz_obj, regex, repl=replace, replw=replacewith)
-'''
-    if _norm_fingerprint(f.node) != _norm_fingerprint(ast.parse(ref).body[0]):
-        raise AnalysisError(rule, "build_tz_offsets no longer has the modelled shape (three nested loops, one yield per "
-                                  "(pattern, zone) plus one per replace pair, each preceded by the append of the same name)")
     tl = module_literal(ctx.repo, "dateparser/timezones.py", "timezone_info_list")
+    nested = [n for n in f.node.body if isinstance(n, ast.FunctionDef)]
+    loops = [n for n in f.node.body if isinstance(n, ast.For)]
+    if len(nested) != 1 or len(loops) != 1 or len(f.node.body) - (1 if ast.get_docstring(f.node) else 0) != 2:
+        raise AnalysisError(rule, "build_tz_offsets: expected one nested helper and one loop nest")
+    helper = nested[0]
+    sink = f.params()[0]
+
+    class Unknown(Exception):
+        pass
+
+    def ev(e, env, depth=0):
+        if depth > 12:
+            raise Unknown("expression too deep")
+        if isinstance(e, ast.Constant):
+            return e.value
+        if isinstance(e, ast.Name):
+            if e.id in env:
+                return env[e.id]
+            raise Unknown("name %s" % e.id)
+        if isinstance(e, ast.Tuple):
+            return tuple(ev(x, env, depth + 1) for x in e.elts)
+        if isinstance(e, ast.List):
+            return [ev(x, env, depth + 1) for x in e.elts]
+        if isinstance(e, ast.Subscript) and isinstance(e.slice, ast.Constant):
+            return ev(e.value, env, depth + 1)[e.slice.value]
+        if isinstance(e, ast.BinOp) and isinstance(e.op, ast.Mod):
+            return ev(e.left, env, depth + 1) % ev(e.right, env, depth + 1)
+        if isinstance(e, ast.Attribute) and ast.unparse(e) in ("re.IGNORECASE", "re.I"):
+            return "IGNORECASE"
+        if isinstance(e, ast.Call):
+            fn = ast.unparse(e.func)
+            if fn == "re.sub" and 3 <= len(e.args) <= 4 and all(k.arg in ("count",) for k in e.keywords):
+                a, b, x = (ev(v, env, depth + 1) for v in e.args[:3])
+                cnt = ev(e.args[3], env, depth + 1) if len(e.args) == 4 else 0
+                for k in e.keywords:
+                    cnt = ev(k.value, env, depth + 1)
+                return regex.sub(a, b, x, count=cnt)
+            if fn == "re.compile" and 1 <= len(e.args) <= 2:
+                fl = ev(e.args[1], env, depth + 1) if len(e.args) == 2 else None
+                for k in e.keywords:
+                    if k.arg == "flags":
+                        fl = ev(k.value, env, depth + 1)
+                return ("compiled", ev(e.args[0], env, depth + 1), fl)
+            if fn == "timedelta" and not e.args and [k.arg for k in e.keywords] == ["seconds"]:
+                return ("timedelta", ev(e.keywords[0].value, env, depth + 1))
+            if fn == helper.name:
+                ps = [a.arg for a in helper.args.args]
+                d = helper.args.defaults
+                henv = {p_: ev(d_, {}, depth + 1) for p_, d_ in zip(ps[len(ps) - len(d):], d)}
+                for p_, a in zip(ps, e.args):
+                    henv[p_] = ev(a, env, depth + 1)
+                for k in e.keywords:
+                    if k.arg not in ps:
+                        raise Unknown("keyword %s" % k.arg)
+                    henv[k.arg] = ev(k.value, env, depth + 1)
+                body = [x for x in helper.body if not (isinstance(x, ast.Expr) and isinstance(x.value, ast.Constant))]
+                for st in body[:-1]:
+                    if isinstance(st, ast.Assign) and len(st.targets) == 1 and isinstance(st.targets[0], ast.Name):
+                        henv[st.targets[0].id] = ev(st.value, henv, depth + 1)
+                    else:
+                        raise Unknown("statement in %s: %s" % (helper.name, ast.unparse(st)[:40]))
+                if not isinstance(body[-1], ast.Return):
+                    raise Unknown("%s does not end in a return" % helper.name)
+                return ev(body[-1].value, henv, depth + 1)
+            if isinstance(e.func, ast.Attribute) and e.func.attr == "get" and len(e.args) == 2:
+                base = ev(e.func.value, env, depth + 1)
+                return base.get(ev(e.args[0], env, depth + 1), ev(e.args[1], env, depth + 1))
+        if isinstance(e, ast.Dict) and all(isinstance(k, ast.Constant) for k in e.keys):
+            return {k.value: ev(v, env, depth + 1) for k, v in zip(e.keys, e.values)}
+        raise Unknown(ast.unparse(e)[:50])
+
     entries, parts = [], []
-    for info in tl:
-        for pat in info["regex_patterns"]:
-            for tz in info["timezones"]:
-                parts.append(tz[0])
-                entries.append((tz[0], regex.sub("", "", pat % tz[0]), tz[1]))
-                for a, b in info.get("replace", []):
-                    parts.append(regex.sub(a, b, tz[0]))
-                    entries.append((tz[0], regex.sub(a, b, pat % tz[0]), tz[1]))
+
+    def run(stmts, env):
+        for st in stmts:
+            if isinstance(st, ast.Expr) and isinstance(st.value, ast.Constant):
+                continue
+            if isinstance(st, ast.For):
+                it = st.iter
+                seq = tl if (isinstance(it, ast.Name) and it.id == "timezone_info_list") else ev(it, env)
+                for item in seq:
+                    e2 = dict(env)
+                    if isinstance(st.target, ast.Name):
+                        e2[st.target.id] = item
+                    elif isinstance(st.target, ast.Tuple) and all(isinstance(x, ast.Name) for x in st.target.elts):
+                        if len(item) != len(st.target.elts):
+                            raise Unknown("unpacking in %s" % ast.unparse(st.target))
+                        for x, v in zip(st.target.elts, item):
+                            e2[x.id] = v
+                    else:
+                        raise Unknown("loop target")
+                    run(st.body, e2)
+                if st.orelse:
+                    raise Unknown("for-else")
+            elif isinstance(st, ast.Assign) and len(st.targets) == 1 and isinstance(st.targets[0], ast.Name):
+                env[st.targets[0].id] = ev(st.value, env)
+            elif isinstance(st, ast.Expr) and isinstance(st.value, ast.Call) and ast.unparse(st.value.func) == sink + ".append" and len(st.value.args) == 1:
+                parts.append(ev(st.value.args[0], env))
+            elif isinstance(st, ast.Expr) and isinstance(st.value, ast.Yield) and st.value.value is not None:
+                v = ev(st.value.value, env)
+                ok = isinstance(v, tuple) and len(v) == 2 and isinstance(v[1], dict) and set(v[1]) == {"regex", "offset"} \
+                    and isinstance(v[1]["regex"], tuple) and v[1]["regex"][0] == "compiled" and v[1]["regex"][2] == "IGNORECASE" \
+                    and isinstance(v[1]["offset"], tuple) and v[1]["offset"][0] == "timedelta"
+                if not ok:
+                    raise Unknown("yielded value is not (name, {regex: re.compile(p, re.IGNORECASE), offset: timedelta(seconds=s)})")
+                entries.append((v[0], v[1]["regex"][1], v[1]["offset"][1]))
+            else:
+                raise Unknown("statement %s" % ast.unparse(st)[:50])
+    try:
+        run(loops, {})
+    except Unknown as e:
+        raise AnalysisError(rule, "build_tz_offsets uses a construct outside the modelled table-building language: %s" % e)
+    except (KeyError, IndexError, TypeError, ValueError) as e:
+        raise AnalysisError(rule, "build_tz_offsets could not be evaluated over timezones.py: %s: %s" % (type(e).__name__, e))
     return tl, entries, parts
 
 
